@@ -1627,6 +1627,12 @@ def c15_dig_cases(seed, tier):
             out.append(c)
             if len(out) >= want:
                 break
+    # and a plain share of documents: the same source text must give the same test whether it is parsed directly or loaded
+    # from the document (load_test(i) == from_str(source i) bound to the file's signals, families_c16.c16_load_oracle)
+    k = 0
+    for c in gen_dig.cases((seed ^ 0x15C) & 0xFFFFFF, 40 if tier == "quick" else 300, 0, 0):
+        if "tree" in c and not c.get("no_model") and c.get("c16", {}).get("desc"):
+            out.append(dict(c, id="c15l-" + c["id"]))
     return out
 
 
@@ -1634,7 +1640,7 @@ PROPS["C15"] = {
     "cases": lambda seed, tier: c15_cases(seed, tier) + c15_dig_cases(seed, tier),
     "tags": ("PARSE", "BIND", "STATIC", "NEW", "ROW", "SROW", "ITEM", "END", "DIG", "SIGNALS", "TEST", "MISSING"),
     "nontrivial": lambda c, t: any(x in ("ROW", "SROW", "REPARSE", "ITER") for x, _ in t),
-    "oracles": [no_panic_oracle],
+    "oracles": [no_panic_oracle, lambda case, trace: __import__("families_c16").c16_load_oracle(case, trace)],
     "pair_oracles": [c15_pair_oracle],
     "audits": ["state"],
     "rule": "per seeded program five cases: a dynamic run; the same text parsed 16 times in one process and compared with == (ParsedTestCase, bound TestCase, order of signals) - programs with 2-3 declare statements "
@@ -1654,7 +1660,7 @@ import families_c16 as _f16  # noqa: E402
 import gen_dig as _gen_dig  # noqa: E402
 _c19_base = PROPS["C19"]["cases"]
 PROPS["C19"]["cases"] = lambda seed, tier: _c19_base(seed, tier) + _gen_dig.cases((seed ^ 0xC19) & 0xFFFFFF, 80 if tier == "quick" else 3000, 0, 0)
-PROPS["C19"]["oracles"] = PROPS["C19"]["oracles"] + [_f16.c16_load_oracle]
+PROPS["C19"]["oracles"] = PROPS["C19"]["oracles"] + [_f16.c16_load_oracle, _f16.c16_desc_oracle]   # (the source text is kept verbatim, line ends included)
 
 
 # ------------------------------------------------------------------ C14 / C08: both operands of every binary operator are evaluated
